@@ -96,6 +96,10 @@ SubStateGuards(post, st) ==
       \* an outstanding delivery does not vanish: it stays outstanding, is acknowledged, or is back
       \* in the backlog for redelivery (C04: "becomes available for redelivery")
       G("C04", s.st = "live" => \A m \in LeasedMsgs(post) : m \in SeqSet(s.queue) \/ m \in LeasedMsgs(s) \/ m \in s.acked),
+      \* ... and a lease ends only by what the turn is about (`post` is the model after the turn's
+      \* acknowledgements, nacks or expiries): a delivery that is back in the backlog although nobody
+      \* nacked it and its deadline has not been reached is "available for redelivery" too early
+      G("C04", s.st = "live" => DOMAIN post.lease \subseteq DOMAIN s.lease),
       G("C01", SeqSet(s.queue) \cup LeasedMsgs(s) \subseteq s.posted),
       G("C02", s.acked \cap (SeqSet(s.queue) \cup LeasedMsgs(s)) = {}),
       G("C03", \A a, b \in DOMAIN s.lease : a # b => s.lease[a].m # s.lease[b].m),
@@ -103,7 +107,7 @@ SubStateGuards(post, st) ==
       \* other to be delivered after the acknowledgement - C02)
       \* (and the queued copy is handed out again before the outstanding delivery's deadline - C04)
       G("C02,C03,C04", LeasedMsgs(s) \cap SeqSet(s.queue) = {}),
-      G("C03", NoDup(s.queue)),
+      G("C02,C03", NoDup(s.queue)),
       G("C03", DOMAIN s.lease \subseteq s.used),
       G("C11", s.st = "deleted" => (s.queue = <<>> /\ s.lease = Empty)) }
 
@@ -437,9 +441,22 @@ Explained(si, e, i) ==
         /\ IF rp.secs = 0 THEN e.mods[i].dl = None
            ELSE e.mods[i].dl # None /\ e.mods[i].dl >= ModLo(rp.t, rp.secs) - Early /\ e.mods[i].dl <= ModHi(e.t, rp.secs)
 
+\* What the turn was asked to do to outstanding deliveries has happened when the turn is over: a
+\* delivery with a nack among its entries is no longer outstanding and its message is queued; any
+\* other carries the deadline of its last entry ("replacing the previous deadline").
+ModApplied(si, e) ==
+    \A a \in {e.mods[i].ack : i \in 1..Len(e.mods)} \cap DOMAIN S[si].lease :
+        LET idx  == {i \in 1..Len(e.mods) : e.mods[i].ack = a}
+            last == CHOOSE i \in idx : \A j \in idx : j <= i
+        IN IF \E i \in idx : e.mods[i].dl = None
+           THEN /\ ~\E y \in LeaseSetOfLog(e.st) : y[1] = a
+                /\ S[si].lease[a].m \in SeqSet(e.st.backlog)
+           ELSE \E y \in LeaseSetOfLog(e.st) : y[1] = a /\ y[3] = e.mods[last].dl
+
 ModCallGuards(si, e) ==
     LET cands == ModCandidates(si, e) IN
-    { \* the list the actor applied is the list of one request; if it is not (an implementation may
+    { G("C05", S[si].st = "live" => ModApplied(si, e)),
+      \* the list the actor applied is the list of one request; if it is not (an implementation may
       \* merge or drop repeated ids), every single modification must still be one a request asked for
       \* that delivery - seconds meant for one delivery applied to another end or stretch a lease the
       \* client did not ask to change (C03, C05)
